@@ -72,6 +72,21 @@ fn check_map(obs: &mut Obs, spec: &ClutterMap, rng: &mut Rng, shape: u64, cuts: 
             return;
         }
     };
+    // the same bytes through a reader that returns short reads must decode identically
+    {
+        let mut rd = mon::DribbleReader::new(std::io::Cursor::new(&bytes[..]), shape);
+        match mon::catch(|| decode_clutter_filter_map(&mut rd)) {
+            Ok(Ok(m2)) if m2 == m => obs.count("short_read_decodes_identical", 1),
+            other => {
+                obs.violation(
+                    "decoding depends on how the reader chunks the bytes (short reads)",
+                    format!("{:?}", other.map(|r| r.map(|m| m.elevation_segments.len()).map_err(|e| format!("{e:?}")))),
+                    replay,
+                );
+                return;
+            }
+        }
+    }
     // header
     if m.header.map_generation_date != spec.date
         || m.header.map_generation_time != spec.minutes
